@@ -22,6 +22,7 @@ import (
 	"strings"
 	"sync"
 	"unsafe"
+	_ "verif/h/duoc"
 
 	"github.com/biogo/biogo/morass"
 	"verif/h/enum"
